@@ -334,6 +334,17 @@ def b_cases():
       H + "struct Foo:\n  0 [+1]  enum  foo:\n    BAR = 1\n  1 [+1]  Foo  other\n", None)
     C("plain reference first, then the inline enum",
       H + "struct Foo:\n  0 [+1]  Foo  other\n  1 [+1]  enum  foo:\n    BAR = 1\n", None)
+    # runtime parameters: names of the structure's own scope
+    for desc, body, want in [
+        ("parameter referenced in its structure", "struct Par(pp: UInt:8):\n  0 [+pp]  UInt:8[]  probe\n", (("Par",), "probe", ("Par", "pp"))),
+        ("parameter not visible from a nested structure", "struct Par(pp: UInt:8):\n  struct Nested:\n    0 [+pp]  UInt:8[]  probe\n  0 [+1]  UInt  aa\n", None),
+        ("parameter and field with one name", "struct Par(pp: UInt:8):\n  0 [+1]  UInt  pp\n", None),
+        ("two parameters with one name", "struct Par(pp: UInt:8, pp: UInt:8):\n  0 [+1]  UInt  aa\n", None),
+        ("parameter named like a field of another structure", "struct One:\n  0 [+1]  UInt  pp\nstruct Par(pp: UInt:8):\n  0 [+pp]  UInt:8[]  probe\n",
+         (("Par",), "probe", ("Par", "pp"))),
+        ("undefined parameter name", "struct Par(pp: UInt:8):\n  0 [+qq]  UInt:8[]  probe\n", None),
+    ]:
+        C("parameters: " + desc, H + body, want)
     # `this`
     C("`this` inside [requires] on a field", H + "struct Outer:\n  0 [+1]  UInt  aa\n    [requires: this > 0]\n", "accept")
     C("`this` outside an attribute", H + "struct Outer:\n  0 [+1]  UInt  aa\n  1 [+this]  UInt:8[]  probe\n", None)
@@ -498,8 +509,8 @@ def main(tier):
                                  "eight reference forms (bare, dotted, prelude)",
                    "other": "own fields x abbreviation x reference; members through a dot; enum values (qualified, bare, nested); duplicates in one scope "
                             "and equal names in different scopes; one import (qualified, bare, wrong alias, clash with a local name, equal type paths in both modules); "
-                            "members through aliases of fields, of paths and of aliases; inline types; `this`",
-                   "outside": "longer paths and deeper nesting than the templates; parameters; `$next`; names across more than one import"},
+                            "members through aliases of fields, of paths and of aliases; inline types; runtime parameters; `this`",
+                   "outside": "longer paths and deeper nesting than the templates; `$next`; names across more than one import"},
         "note": "finite domain: the paths enumerate every combination; the solver decides path feasibility of the choices and nothing else",
     })
     return rep.finish()
